@@ -292,7 +292,7 @@ Proof.
   - intros a b _ _. apply kle2_antisym.
   - apply sorted_strip, sort_key_sorted.
   - apply sorted_strip, sort_key_sorted.
-  - unfold strip at 1 3.
+  - unfold strip in *.
     eapply perm_trans; [apply Permutation_map, sort_key_perm|].
     eapply perm_trans; [exact P|]. apply Permutation_sym, Permutation_map, sort_key_perm.
 Qed.
@@ -315,7 +315,7 @@ Proof.
 Qed.
 
 Lemma strip_firstn k l : strip (firstn k l) = firstn k (strip l).
-Proof. unfold strip. apply firstn_map. Qed.
+Proof. unfold strip. symmetry. apply firstn_map. Qed.
 
 Lemma NoDup_keys_perm (m m' : vmap) : Permutation m m' -> NoDup (keys m) -> NoDup (keys m').
 Proof. intros P. apply Permutation_NoDup. apply Permutation_map. exact P. Qed.
